@@ -383,7 +383,10 @@ pub fn op_strategy(params: &GenParams) -> BoxedStrategy<Op> {
         choices.push(((advance / 3).max(1), (0u8..=3, prop_oneof![Just(1u32), Just(500), Just(1001), Just(2500)], writes.clone()).prop_map(|(after_reads, by_ms, op)| Op::JumpDuring { after_reads, by_ms, op: Box::new(op) }).boxed()));
     }
     if params.ttl && params.expired_write > 0 {
-        choices.push((params.expired_write, (key.clone(), prop_oneof![Just(0u32), Just(1), Just(998), Just(1500), Just(3000)], writes.clone(), any::<bool>()).prop_map(|(k, past_ms, write, read_first)| Op::ExpiredWrite { k, past_ms, write: Box::new(write), read_first }).boxed()));
+        choices.push((params.expired_write, (key.clone(), prop_oneof![Just(0u32), Just(1), Just(998), Just(1500), Just(3000)],
+            // one write, or a stall-window burst (worker parked) of writes and reads, all aimed at the expired key
+            prop_oneof![3 => writes.clone(), 2 => prop::collection::vec(prop_oneof![3 => writes.clone(), 1 => reads.clone()], 2..=4).prop_map(|burst| Op::Stall { burst })],
+            any::<bool>()).prop_map(|(k, past_ms, write, read_first)| Op::ExpiredWrite { k, past_ms, write: Box::new(write), read_first }).boxed()));
     }
     if params.fill > 0 {
         let ttl: BoxedStrategy<Option<TtlSel>> = if params.ttl { prop_oneof![1 => Just(None), 2 => (0u32..=6).prop_map(|s| Some(TtlSel::Secs(s)))].boxed() } else { Just(None).boxed() };
